@@ -34,6 +34,8 @@ type Conn struct {
 	out     *byteDir
 	// Sizes the chunker chooses from (0 = everything in flight)
 	ReadBytes, WrittenBytes int
+	// Writes: instant (simulated clock) and size of every Write on this end
+	Writes []WriteEvent
 }
 
 type simAddr string
@@ -176,6 +178,7 @@ func (c *Conn) Write(p []byte) (int, error) {
 	}
 	c.out.buf = append(c.out.buf, p...)
 	c.WrittenBytes += len(p)
+	c.Writes = append(c.Writes, WriteEvent{At: time.Now(), N: len(p)})
 	return len(p), nil
 }
 
@@ -234,6 +237,19 @@ func (c *Conn) SetReadDeadline(t time.Time) error {
 }
 func (c *Conn) SetWriteDeadline(t time.Time) error { return nil }
 func (c *Conn) Chunks() int                        { c.out.mu.Lock(); defer c.out.mu.Unlock(); return c.out.Chunks }
+
+// WriteEvent is one Write call.
+type WriteEvent struct {
+	At time.Time
+	N  int
+}
+
+// WriteLog returns a copy of the writes made on this end.
+func (c *Conn) WriteLog() []WriteEvent {
+	c.out.mu.Lock()
+	defer c.out.mu.Unlock()
+	return append([]WriteEvent(nil), c.Writes...)
+}
 
 // Listener is a simulated net.Listener: Dial creates a connection pair and
 // hands the server end to Accept.
